@@ -337,6 +337,7 @@ def gen_script_desc(ctx, rng, k):
 
 def run(ctx):
     rng = ctx.rng
+    C1.out_of_time(ctx)          # start the harness clock
     npairs = ctx.n(70, 1500)
     NSTEPS = 4
     ops, meta = [], []
